@@ -785,8 +785,10 @@ def seq_append(it, sz, xz):
 
 def m_seq(it, s, meth, args, kwargs, fr):
     old_z = s.z
-    r = _m_seq(it, s, meth, args, kwargs, fr)
     hook = getattr(it.reg, "seq_op_hook", None)
+    if hook is not None:
+        hook(it, s, "pre:" + meth, old_z, args)
+    r = _m_seq(it, s, meth, args, kwargs, fr)
     if hook is not None and s.z is not old_z:
         # a property module may spell out element-wise consequences of the list operation
         hook(it, s, meth, old_z, args)
